@@ -548,6 +548,22 @@ def run_check(pid: str, tier: str, seed: int, replay: str | None = None) -> int:
     # model mirrors it; models mirror the code as it is, so any mismatch counts
     if mism:
         broken.append(("correspondence", f"{len(mism)} case(s) where model and implementation differ", ""))
+    # property-specific floors on judged cases: MIN_JUDGED = fraction (<=1), count, or {kind: count} with judged(case, obs)
+    mj = getattr(prop, "MIN_JUDGED", None)
+    if isinstance(mj, dict) and hasattr(prop, "judged"):
+        cnt = {}
+        for c, o in zip(cases, obs):
+            for k in (prop.judged(c, o) or []):
+                cnt[k] = cnt.get(k, 0) + 1
+        scale = 1 if tier == "quick" else 1  # floors are stated for the quick tier; larger tiers exceed them
+        short = {k: (cnt.get(k, 0), v) for k, v in mj.items() if cnt.get(k, 0) < v * scale}
+        if short:
+            broken.append(("coverage", f"too few judged cases (have, need): {short}", ""))
+    elif isinstance(mj, (int, float)) and not isinstance(mj, bool):
+        need = mj * len(cases) if mj <= 1 else mj
+        if len(terms) < need:
+            broken.append(("coverage", f"only {len(terms)} of {len(cases)} cases were judged and reached the model "
+                                       f"(floor {mj})", ""))
     if prop.CORR_MODULE and len(terms) < prop.MIN_CORR_FRACTION * max(1, len(cases)):
         broken.append(("coverage", f"only {len(terms)} of {len(cases)} cases reached the model "
                                    f"(floor {prop.MIN_CORR_FRACTION:.0%}): the run decides nothing", ""))
